@@ -39,7 +39,7 @@ def set_hash_seeds(seed: int, tier: str = "quick", explicit=None) -> None:
         if v not in vals:
             vals.append(v)
     HASH_SEEDS[:] = vals
-SESSION_TIMEOUT_S = float(os.environ.get("VERIF_SESSION_TIMEOUT", "180"))
+SESSION_TIMEOUT_S = float(os.environ.get("VERIF_SESSION_TIMEOUT", "300"))
 VERIF_DIR = os.path.dirname(os.path.dirname(os.path.abspath(__file__)))
 
 
